@@ -477,7 +477,8 @@ def run_task(args):
     # paired native float run + replay of refutations
     paired = {"compared": 0, "max_rel_err": 0.0, "skipped": None}
     refuted = [o for o in vk.obl if o["status"] in ("refuted", "refuted-tol") and o["name"] in vk.lhs]
-    if vk.samplers and c.engine == "E1" and not out["error"]:
+    # (a contract without symbolic inputs -- ground states -- still gets the native replay of its refuted obligations)
+    if (vk.samplers or refuted) and c.engine == "E1" and not out["error"]:
         try:
             _paired_and_replay(c, cfg, vk, rng, paired, refuted, tier)
         except Exception as e:
@@ -676,6 +677,8 @@ def _paired_and_replay(c, cfg, vk, rng, paired, refuted, tier):
             if n in rv.lhs:
                 actual = rv.lhs[n]
                 rep.update(point=cand, expected=b, actual=actual, symbolic_actual=a)
+                if not cand:
+                    rep["input"] = "the contract has no symbolic inputs: the failing input is the concrete one the contract builds for this configuration and obligation index (re-built by --replay)"
                 rep["confirmed"] = bool(abs(actual - b) > 1e-9 * max(1.0, abs(actual), abs(b)))
         o["replay"] = rep
 
